@@ -10,6 +10,7 @@ import (
 	"bufio"
 	"bytes"
 	"crypto/sha256"
+	"crypto/tls"
 	"encoding/base64"
 	"fmt"
 	"io"
@@ -102,7 +103,7 @@ func (o *httpOrigin) snapshot() ([]originReq, int) {
 }
 
 // plainHTTP runs one keep-alive proxy connection with 2-4 plain requests spaced around and far beyond the 250 ms wait.
-func plainHTTP(e *core.Env, ci int, r *core.RNG, inst *svx.Instance, S, C string, portA, tport int, race, noWait bool) {
+func plainHTTP(e *core.Env, ci int, r *core.RNG, inst *svx.Instance, t *svx.Topo, S, C string, portA, tport int, race, noWait bool) {
 	rec := e.Rec
 	viol := func(kind, format string, a ...any) {
 		rec.Violate("relay", ci, core.Sig("kind", kind, "part", e.Part, "S", S, "C", C, "mode", "plain-http-keepalive", "fail", ""), map[string]any{"logs": inst.LogLines(14)}, format, a...)
@@ -120,12 +121,21 @@ func plainHTTP(e *core.Env, ci int, r *core.RNG, inst *svx.Instance, S, C string
 		fakeDNS.Set(name, "127.0.0.2")
 		host = fmt.Sprintf("%s:%d", name, tport)
 	}
-	c, err := net.Dial("tcp", fmt.Sprintf("127.0.0.1:%d", portA))
+	var c net.Conn
+	c, err = net.Dial("tcp", fmt.Sprintf("127.0.0.1:%d", portA))
 	if err != nil {
 		rec.Inconclusive("plain-http dial: " + err.Error())
 		return
 	}
 	defer c.Close()
+	if svx.UsesTLS(S) {
+		tc, err := t.TLSClientConfig(S == "httpmtls")
+		if err != nil {
+			rec.Inconclusive("plain-http tls config: " + err.Error())
+			return
+		}
+		c = tls.Client(c, tc)
+	}
 	adv := func(d time.Duration) {
 		if d == 0 {
 			return
@@ -256,7 +266,7 @@ func plainHTTP(e *core.Env, ci int, r *core.RNG, inst *svx.Instance, S, C string
 		}
 	}
 	// the client finishes: the proxy connection must end
-	if tc, ok := c.(*net.TCPConn); ok {
+	if tc, ok := c.(interface{ CloseWrite() error }); ok {
 		tc.CloseWrite()
 	}
 	if !svx.Poll(2*time.Second, func() bool { mu.Lock(); defer mu.Unlock(); return rdone }) {
